@@ -22,6 +22,7 @@ import (
 	"golang.org/x/mod/sumdb/note"
 	"golang.org/x/mod/sumdb/tlog"
 
+	"verif/internal/ref/pathref"
 	"verif/internal/world"
 )
 
@@ -97,9 +98,14 @@ func All() []Scenario {
 		{Name: "two-clients-same-key", Height: 1, Clients: 2, Threads: [][]Lookup{{L(0, 0, false)}, {L(1, 0, false)}}},
 		{Name: "nosumdb-next-to-normal", Height: 2, Clients: 1, GONOSUMDB: "m7.example,*.corp", Threads: [][]Lookup{{L(0, 7, false)}, {L(0, 0, false)}}},
 		{Name: "nosumdb-only-client", Height: 2, Clients: 2, GONOSUMDB: "m7.example,*.corp", Threads: [][]Lookup{{L(1, 7, false), L(1, 7, true)}, {L(0, 0, false)}}},
+		{Name: "nosumdb-character-class", Height: 2, Clients: 1, GONOSUMDB: "m[6-8].example,*.corp", Threads: [][]Lookup{{L(0, 7, false)}, {L(0, 0, false)}}},
+		{Name: "nosumdb-escape-and-question-mark", Height: 2, Clients: 2, GONOSUMDB: "other.example,m\\7.example/p?", Threads: [][]Lookup{{L(1, 7, false), L(1, 7, true)}, {L(0, 0, false)}}},
 		{Name: "three-heads-one-client-h8", Height: 8, Preload: pre(10, 11, 12), Stored: true, Clients: 1, Threads: [][]Lookup{{L(0, 0, false)}, {L(0, 1, false)}, {L(0, 3, false)}}},
 		{Name: "height-8-single-tile", Height: 8, Preload: pre(10, 11, 12, 13, 14), Stored: true, Clients: 1, Threads: [][]Lookup{{L(0, 0, false)}, {L(0, 1, true)}}},
 		{Name: "one-thread-two-lookups-vs-one", Height: 2, Preload: pre(10), Clients: 1, Threads: [][]Lookup{{L(0, 0, false), L(0, 1, false)}, {L(0, 1, true)}}},
+		// heads whose signed notes differ in length: tree sizes 9, 10, 11 (one digit more), one client
+		{Name: "three-heads-crossing-ten", Height: 2, Preload: pre(10, 11, 12, 13, 14, 15, 16, 17), Stored: true, Clients: 1, Threads: [][]Lookup{{L(0, 0, false)}, {L(0, 1, false)}, {L(0, 3, false)}}},
+		{Name: "two-heads-crossing-hundred-two-clients", Height: 3, Preload: pre(10), Stored: true, Grow: 97, Clients: 2, Threads: [][]Lookup{{L(0, 0, false)}, {L(1, 1, false)}}},
 		{Name: "growing-log-strict-partials-h1", Height: 1, Preload: pre(10), Stored: true, Clients: 1, StrictPartials: true, Threads: [][]Lookup{{L(0, 0, false)}, {L(0, 1, false)}}},
 		{Name: "growing-log-strict-partials-h2", Height: 2, Preload: pre(10, 11), Stored: true, Clients: 2, StrictPartials: true, Threads: [][]Lookup{{L(0, 0, false)}, {L(1, 1, false)}, {L(0, 3, false)}}},
 		{Name: "growing-log-strict-partials-h3-empty", Height: 3, Clients: 1, StrictPartials: true, Threads: [][]Lookup{{L(0, 0, false), L(0, 1, false)}, {L(0, 3, false)}}},
@@ -468,14 +474,8 @@ func Check(sc Scenario, e *Env, results []Res) (string, string) {
 	if len(results) != total {
 		return fmt.Sprintf("%d of %d lookups returned", len(results), total), ""
 	}
-	skipped := func(p string) bool {
-		for _, g := range strings.Split(sc.GONOSUMDB, ",") {
-			if g != "" && (g == p || strings.HasPrefix(p, g+"/") || strings.HasPrefix(g, "*.") && strings.HasSuffix(strings.SplitN(p, "/", 2)[0], g[1:])) {
-				return true
-			}
-		}
-		return false
-	}
+	// private paths: the documented prefix-glob rule (reference implementation shared with C06)
+	skipped := func(p string) bool { return sc.GONOSUMDB != "" && pathref.MatchPrefix(sc.GONOSUMDB, p) }
 	// a client that only ever looks up private paths must perform no external operation at all
 	onlyPrivate := map[int]bool{}
 	for _, th := range sc.Threads {
